@@ -190,6 +190,19 @@ func runCrashCase(c *core.Case) *core.Result {
 	p.WFlushPage, p.WFlushTx, p.WCheckpt = 8, 5, 4
 	p.MaxAllocN = 5
 	prog := GenProgram(r, p)
+	big := c.Idx%48 == 5
+	if big {
+		// transactions exceeding the writer's batch buffer (1024 messages):
+		// boundaries are sampled, subsets restricted (see below)
+		cfg = Config{PageSize: 1024, DiskCap: 8 << 20, SyncMode: r.Intn(3), InitMetaArea: []uint32{0, 16}[r.Intn(2)]}
+		n := 1100 + r.Intn(1900)
+		prog = []Op{
+			{K: OBegin}, {K: OAlloc, A: 3, B: 1}, {K: OCommit},
+			{K: OBegin}, {K: OAlloc, A: n, B: 1}, {K: OWrite, A: 1, B: 0}, {K: OCommit},
+			{K: OBegin}, {K: OWrite, A: 5, B: 0}, {K: OWrite, A: 77, B: 1}, {K: OFree, A: 9}, {K: OAlloc, A: 40, B: 1}, {K: OCommit},
+		}
+		res.Add("big_transaction_histories", 1)
+	}
 
 	w := recordHistory(c, cfg, prog, res, "C01")
 	if w.failed {
@@ -239,6 +252,20 @@ func runCrashCase(c *core.Case) *core.Result {
 		if walker.Pos() <= start {
 			continue
 		}
+		if big {
+			// sample: boundaries next to sync and header writes, plus every 97th
+			near := false
+			for d := -2; d <= 1; d++ {
+				if i := walker.Pos() + d; i >= 0 && i < len(ops) {
+					if ops[i].Kind == simdisk.OpSync || (ops[i].Kind == simdisk.OpWrite && len(ops[i].Data) < ps) {
+						near = true
+					}
+				}
+			}
+			if !near && walker.Pos()%97 != 0 {
+				continue
+			}
+		}
 		boundaries++
 		allowed := []uint64{win.lastOK}
 		if win.inProgress != 0 {
@@ -251,7 +278,28 @@ func runCrashCase(c *core.Case) *core.Result {
 				hdrUnit = i
 			}
 		}
-		for si, sub := range subsets(r, n, fullLimit, samples) {
+		subs := subsets(r, n, fullLimit, samples)
+		if big && n > 40 {
+			// none, all, three prefixes, four PRNG subsets
+			subs = subs[:0]
+			mk := func(f func(i int) bool) {
+				s := make([]bool, n)
+				for i := range s {
+					s[i] = f(i)
+				}
+				subs = append(subs, s)
+			}
+			mk(func(int) bool { return false })
+			mk(func(int) bool { return true })
+			for _, cutAt := range []int{n / 4, n / 2, n - 1} {
+				cutAt := cutAt
+				mk(func(i int) bool { return i < cutAt })
+			}
+			for k := 0; k < 4; k++ {
+				mk(func(int) bool { return r.Intn(2) == 0 })
+			}
+		}
+		for si, sub := range subs {
 			cuts := []int{-1}
 			if hdrUnit >= 0 && sub[hdrUnit] {
 				// torn header write: every byte cut (thorough) or a sample
